@@ -343,6 +343,8 @@ class ExprMixin:
             mod, _, fn = imp.rpartition(".")
             if mod in ("random", "math", "copy", "functools", "itertools", "time"):
                 return PyVal("func", name="%s.%s" % (mod, fn))
+            if mod == "scipy.optimize":
+                return PyVal("func", name="scipy.optimize.%s" % fn)
             if mod in ("numpy", "numpy.random"):
                 return PyVal("func", name="np.%s" % fn if mod == "numpy" else "np.random.%s" % fn)
         if name in ("math", "np", "numpy", "random", "itertools", "functools", "time", "sys", "copy", "json", "sqlite3", "os"):
@@ -472,6 +474,13 @@ class ExprMixin:
         if isinstance(op, ast.Sub):
             return SV(ty, x - y)
         if isinstance(op, ast.Mult):
+            if self.mul_mode == "uninterpreted" and ty.kind == "real":
+                xs, ys = z3.simplify(x), z3.simplify(y)
+                if not (z3.is_rational_value(xs) or z3.is_int_value(xs) or z3.is_rational_value(ys) or z3.is_int_value(ys)):
+                    # product of two symbolic factors kept uninterpreted (only functionality is used; avoids nonlinear search)
+                    f = z3.Function("umul", z3.RealSort(), z3.RealSort(), z3.RealSort())
+                    self.ctx.models_used.add("products of two symbolic factors kept uninterpreted (umul) in this function")
+                    return SV(REAL, f(x, y))
             return SV(ty, x * y)
         if isinstance(op, ast.Div):
             xr, yr = self.to_real(a), self.to_real(b)
@@ -910,7 +919,9 @@ class ExprMixin:
     def ev_Dict(self, node, st, spec):
         if not node.keys:
             return self.new_record(st)
-        raise Unsupported("dict literal")
+        for v in node.values:
+            self.ev(v, st, spec)
+        return PyVal("const", value="<dict literal>")
 
     def new_record(self, st):
         """dict() / {} stored where a record (dict with constant keys) lives: a fresh record object without keys"""
